@@ -286,6 +286,55 @@ def job_model(d, tier):
     return out, {"dim": d}
 
 
+def job_isorad(d, tier):
+    """_get_iso_rad (behind vario_spatial / cov_spatial / cor_spatial) at a general point: |diag(1,1/e) R^T x|^2 with the documented R."""
+    _setup()
+    import gstools as gs
+
+    T = core.tier_timeout(tier)
+    out = []
+    th = _angles(d)
+    an = _anis(d)
+    l = real("l")
+    X = [real(f"x{k}") for k in range(d)]
+    wv = dict(_wv(d), l=l)
+    for k in range(d):
+        wv[f"x{k}"] = X[k]
+    rb = ("isorad", lambda vals: {"dim": d, "values": vals})
+
+    def run():
+        for e in an:
+            sym.assume(e > 0)
+        sym.assume(l > 0)
+        m = gs.Gaussian(dim=d, len_scale=l, anis=an if d > 1 else 1.0, angles=th if d > 1 else 0.0)
+        return m._get_iso_rad([x for x in X])
+
+    paths = explore(run, max_paths=64)
+    bad_paths = [p for p in paths if p.exc is not None]
+    if bad_paths or not paths:
+        return [rec(f"C12/d{d}/iso_rad", "error", detail=f"paths={len(paths)} exc={[repr(p.exc) for p in bad_paths][:3]} {bad_paths[0].tb if bad_paths else ''}")]
+    R = _ref_rotation(d, [t.e for t in th])
+    ref_sq = 0
+    for k in range(d):
+        c = z3.Sum([R[j][k] * X[j].e for j in range(d)])  # (R^T x)_k
+        if k > 0:
+            c = c / an[k - 1].e
+        ref_sq = ref_sq + c * c
+    for pi, p in enumerate(paths):
+        sfx = f"/path{pi}" if len(paths) > 1 else ""
+        r = p.out
+        r = r.reshape(-1)[0] if isinstance(r, rnp.ndarray) else r
+        e = lift(r)
+        S = e.arg(0) if (z3.is_app(e) and e.decl().name() == "sqrt") else None
+        if S is None:
+            # no square root left (e.g. |x| in one dimension): compare squares directly
+            S = e * e
+            out.append(prove(f"C12/d{d}/iso_rad_nonneg{sfx}", p.conds, e >= 0, T, witness_vars=wv, replay=rb))
+        goal, n = passes.reduced_eq_goal(S, ref_sq)
+        out.append(prove(f"C12/d{d}/iso_rad_sq{sfx}", p.conds, goal, T, witness_vars=wv, replay=rb, note=f"_get_iso_rad(x)^2 = |diag(1,1/e) R^T x|^2 at a general point; residual {n} monomials"))
+    return out, {"dim": d, "paths": len(paths)}
+
+
 def job_padding(tier):
     _setup()
     from gstools.covmodel.tools import set_len_anis, set_model_angles
@@ -397,6 +446,8 @@ def jobs(tier, seed):
         js.append(Job(f"model-d{d}", job_model, d, tier))
         js.append(Job(f"pipeline-d{d}", job_pipeline, d, tier))
     js.append(Job("padding", job_padding, tier))
+    for d in (1, 2, 3) if tier == "quick" else (1, 2, 3, 4):
+        js.append(Job(f"isorad-d{d}", job_isorad, d, tier))
     if tier == "thorough":
         # dimension 5 (10 rotation planes): rotation-matrix identities and the isometrisation pipeline; the model-level job does
         # not finish there (15 min) and stays at d <= 4
@@ -502,6 +553,32 @@ def replay_model_axes(inputs):
     return (not bad), f"dim={d} angles={th} anis={an} l={l} t={t} failing={bad}"
 
 
+def replay_isorad(inputs):
+    import numpy as np
+    import gstools as gs
+
+    d = int(inputs["dim"])
+    th, an, v = _vals(inputs, d)
+    l = float(v.get("l") or 1.0)
+    l = l if l > 0 else 1.0
+    x = np.array([float(v.get(f"x{k}") or 0.0) for k in range(d)])
+    m = gs.Gaussian(dim=d, len_scale=l, anis=an if d > 1 else 1.0, angles=th if d > 1 else 0.0)
+    R = _ref_np(d, th)
+    y = R.T @ x
+    y[1:] = y[1:] / np.array(an)[: d - 1] if d > 1 else y[1:]
+    want = float(np.sqrt(np.sum(y * y)))
+    got = float(m._get_iso_rad(x.reshape(d, 1))[0])
+    bad = []
+    if not np.isclose(got, want, rtol=1e-9, atol=1e-12):
+        bad.append(("iso_rad", got, want))
+    for name, f in (("vario", m.variogram), ("cov", m.covariance), ("cor", m.correlation)):
+        a = float(getattr(m, name + "_spatial")(x.reshape(d, 1))[0])
+        b = float(f(want))
+        if not np.isclose(a, b, rtol=1e-9, atol=1e-12):
+            bad.append((name + "_spatial", a, b))
+    return (not bad), f"dim={d} angles={th} anis={an} l={l} x={x.tolist()} failing={bad}"
+
+
 def replay_padding(inputs):
     import numpy as np
     from gstools.covmodel.tools import set_len_anis, set_model_angles
@@ -556,4 +633,4 @@ def replay_pipeline(inputs):
     return (not bad), f"dim={d} angles={th} anis={an} X={X.tolist()} failing={bad}"
 
 
-REPLAY = {"matrices": replay_matrices, "model_axes": replay_model_axes, "padding": replay_padding, "pipeline": replay_pipeline}
+REPLAY = {"matrices": replay_matrices, "model_axes": replay_model_axes, "isorad": replay_isorad, "padding": replay_padding, "pipeline": replay_pipeline}
